@@ -282,7 +282,6 @@ func (ce *Ceremony) JudgeSignatures(c *Ctx, j *sigJudge, expected map[string]map
 	}
 }
 
-
 // requestVsProposal compares the files an operator handed to the API / tool with the tasks of the proposal
 // that reached the board: every file once, under its own name, with its own bytes, nothing else.
 func requestVsProposal(data map[string][]byte, proposal []byte) string {
